@@ -46,3 +46,22 @@ partial def loop (m : Machine) (h : IO.FS.Stream) (out : IO.FS.Stream) (s : m.σ
     loop m h out s'
 
 end Driver
+
+namespace Driver
+/-- split "op words => observed" -/
+def splitObs (ws : List String) : List String × String :=
+  match ws.span (· ≠ "=>") with
+  | (op, _ :: obs) => (op, " ".intercalate obs)
+  | (op, []) => (op, "")
+
+/-- A judge derived from a machine whose outputs are exactly the property-relevant observables:
+    the implementation's output must equal the spec machine's output; `name` labels the violated
+    clause by operation. -/
+def judgeOf (m : Machine) (name : List String → String) : Machine :=
+  ⟨m.σ, m.init, fun s ws =>
+    let (op, obs) := splitObs ws
+    let (s', o) := m.step s op
+    if o = "bad-op" then (s', "bad-op")
+    else if o = obs then (s', "pass")
+    else (s', s!"violation {name op} expected {o} got {obs}")⟩
+end Driver
